@@ -17,6 +17,7 @@ MUTANTS = {  # model-level sensitivity: each wrong client must violate one of th
     "outer-sni-secret": {"NoLeak", "OuterOK"},
     "inner-names-public": {"InnerOK"},
     "stale-shares": {"InnerOK"},                        # the D8 pattern
+    "kdf-hash": {"OutcomeRule", "AcceptReported"},      # acceptance confirmation derived with the hash of the HPKE KDF instead of the negotiated suite's
     "stale-outer-list": {"InnerOK"},                    # ech_outer_extensions of the second inner hello computed before the cookie was inserted
     "ignore-signal": {"OutcomeRule", "AcceptReported", "RejectionCarriesRetry"},
     "verify-servername-always": {"VerifyNameRule", "OutcomeRule"},   # the D10 pattern
@@ -25,12 +26,12 @@ MUTANTS = {  # model-level sensitivity: each wrong client must violate one of th
 INVS = "ScenarioSane Progress NoLeak OuterOK InnerOK DecryptOK AcceptReported RejectionCarriesRetry VerifyNameRule OutcomeRule"
 
 
-def mc_cfg(ctx, name, cfgids, aeads, maxlens, names, shapes, usages, cookies, sample, mutant):
+def mc_cfg(ctx, name, cfgids, aeads, maxlens, names, shapes, usages, cookies, suites, sample, mutant):
     st = lambda xs: "{" + ", ".join(str(x) for x in xs) + "}"
     open(ctx.scratch + "/%s.cfg" % name, "w").write(
-        "CONSTANTS\n  CfgIds = %s\n  AeadIds = %s\n  MaxLens = %s\n  NameSets = %s\n  ShapeIdx = %s\n  UsageIdx = %s\n  CookieLens = %s\n  Sample = %d\n  Mutant = \"%s\"\n"
+        "CONSTANTS\n  CfgIds = %s\n  AeadIds = %s\n  MaxLens = %s\n  NameSets = %s\n  ShapeIdx = %s\n  UsageIdx = %s\n  CookieLens = %s\n  SuiteIds = %s\n  Sample = %d\n  Mutant = \"%s\"\n"
         "INIT Init\nNEXT Next\nINVARIANTS %s\nCONSTRAINT Emit\nCHECK_DEADLOCK FALSE\n"
-        % (st(cfgids), st(aeads), st(maxlens), st(names), st(shapes), st(usages), st(cookies), sample, mutant, INVS))
+        % (st(cfgids), st(aeads), st(maxlens), st(names), st(shapes), st(usages), st(cookies), st(suites), sample, mutant, INVS))
     return name
 
 
@@ -89,14 +90,14 @@ def brief(s):
 def run(ctx):
     # ---- code -> model constants
     ids = ctx.drv("echids", {}, prog="ech")[0]["ids"]
-    ctx.write_json("ech_ids.json", {k: {f: v[f] for f in ("kinds", "groups", "shares")} for k, v in ids.items()})
+    ctx.write_json("ech_ids.json", {k: {f: v[f] for f in ("kinds", "groups", "shares", "suites")} for k, v in ids.items()})
 
     # ---- model checking: the grid + the properties on model-built bytes; scenarios out
-    full = ([0, 7, 255], [1, 2, 3], [0, 32, 255], [1, 2], [1, 2, 3, 4], [1, 2, 3, 4, 5], [0, 1, 32, 255])
+    full = ([0, 7, 255], [1, 2, 3], [0, 32, 255], [1, 2], [1, 2, 3, 4], [1, 2, 3, 4, 5], [0, 1, 32, 255], [4865, 4866, 4867])
     sample = ctx.seed % 6 + (0 if ctx.quick else 10)
     # (the model-level mutants run side by side with it: a wrong client in the model must violate the matching invariant)
     def mutant(m):
-        r = ctx.tlc("ECH_MC", cfg=mc_cfg(ctx, "ECH_MC_mut_" + m.replace("-", "_"), [7], [1], [32], [1], [1], [1, 3], [0, 32], 99, m), workers=1, timeout=600, count=False)
+        r = ctx.tlc("ECH_MC", cfg=mc_cfg(ctx, "ECH_MC_mut_" + m.replace("-", "_"), [7], [1], [32], [1], [1], [1, 3], [0, 32], [4865, 4866], 99, m), workers=1, timeout=600, count=False)
         return m, set(r.violated)
     with cf.ThreadPoolExecutor(max_workers=7) as ex:
         fmc = ex.submit(lambda: ctx.tlc("ECH_MC", cfg=mc_cfg(ctx, "ECH_MC_run", *full, sample, "none"), workers=8 if ctx.quick else 14, timeout=2400))
@@ -149,7 +150,7 @@ def run(ctx):
         # of the failing usages (shapes), some tested shape (usage) does not show it.
         ok2 = [(sc, kind, detail) for sc, kind, detail in rej if (sc, kind, detail) in rej2]
         fails = {}
-        DIMS = ("shape", "usage", "ck")
+        DIMS = ("shape", "usage", "ck", "suite")
         idc = lambda x: "golang" if x["id"] == "Golang" else "utls"
         for x in scns:
             x["ck"] = "cookie" if x["cookie"] > 0 else "nocookie"
@@ -157,10 +158,27 @@ def run(ctx):
             f = fails.setdefault(sig_of(scns[sc], kind, detail), {d: set() for d in DIMS})
             for d in DIMS:
                 f[d].add(scns[sc][d])
+        failing = {}
+        for sc, kind, detail in ok2:
+            failing.setdefault(sig_of(scns[sc], kind, detail), set()).add(sc)
+        IMPLICIT = ("cert", "nretry", "hrr_group")
+        memo = {}
+        def explaining(sig, like):
+            """the dimensions whose value alone predicts this rejection (every scenario of the population with a failing value shows
+            it, and some value never does); population = same server and ID class, certificate / retry / group values as in the failures"""
+            key = (sig, like["server"], idc(like))
+            if key not in memo:
+                bad_sc = failing[sig]
+                imp = {d: {scns[i][d] for i in bad_sc} for d in IMPLICIT}
+                pop = [x for x in scns if x["server"] == like["server"] and idc(x) == idc(like) and all(x[d] in imp[d] for d in IMPLICIT)]
+                f = fails[sig]
+                dims = [d for d in DIMS if all(x["sc"] in bad_sc for x in pop if x[d] in f[d]) and {x[d] for x in pop} != f[d]]
+                if not dims:   # no single dimension predicts it: name those some tested value of which never shows it
+                    dims = [d for d in DIMS if {x[d] for x in pop if all(x[o] in f[o] for o in DIMS if o != d)} != f[d]]
+                memo[key] = dims
+            return memo[key]
         def depends(sig, dim, like):
-            f = fails[sig]
-            tested = {x[dim] for x in scns if x["server"] == like["server"] and idc(x) == idc(like) and all(x[o] in f[o] for o in DIMS if o != dim)}
-            return f[dim] != tested
+            return dim in explaining(sig, like)
         for sc, kind, detail in rej:
             s = scns[sc]
             if (sc, kind, detail) not in rej2:
@@ -169,9 +187,9 @@ def run(ctx):
             r = results[sc]
             base = sig_of(s, kind, detail)
             sig = base + (":list=" + s["shape"] if depends(base, "shape", s) else "") + (":usage=" + s["usage"] if depends(base, "usage", s) else "") \
-                       + (":hrr-" + s["ck"] if depends(base, "ck", s) else "")
-            ctx.finding(sig, "%s, usage %s, config list %s, server %s (HRR cookie %d bytes), certificate valid for %s: %s %s; client error [%s] %s; server error %s"
-                        % (s["id"], s["usage"], s["shape"], s["server"], s["cookie"], s["cert"], kind, clean(detail), r["errtype"], r["cerr"][:120], r["serr"][:120]),
+                       + (":hrr-" + s["ck"] if depends(base, "ck", s) else "") + (":suite=%d" % s["suite"] if depends(base, "suite", s) else "")
+            ctx.finding(sig, "%s, usage %s, config list %s, server %s (suite %#x, HRR cookie %d bytes), certificate valid for %s: %s %s; client error [%s] %s; server error %s"
+                        % (s["id"], s["usage"], s["shape"], s["server"], s["suite"], s["cookie"], s["cert"], kind, clean(detail), r["errtype"], r["cerr"][:120], r["serr"][:120]),
                         {"scenario": brief(s), "kind": kind, "detail": detail,
                          "observed": {k: r[k] for k in ("errtype", "cerr", "serr", "cok", "sok", "echo")} if sig not in seen else "see first case"})
             seen.add(sig)
@@ -256,6 +274,8 @@ def run(ctx):
         "hrr_done": count(lambda s, r, g: s["server"] == "hrr" and r["errtype"] == "none" and r["cs"]["ech"]),
         "hrr_cookie_done_utls": count(lambda s, r, g: s["server"] == "hrr" and s["cookie"] > 0 and s["id"] != "Golang" and r["errtype"] == "none" and r["cs"]["ech"]),
         "reject_hrr_cookie": count(lambda s, r, g: s["server"] == "reject_hrr" and s["cookie"] > 0 and r["errtype"] in ("ECHRejectionError", "CertificateVerificationError")),
+        "accept_done_sha384": count(lambda s, r, g: s["server"] == "accept" and s["suite"] == 4866 and r["errtype"] == "none" and r["cs"]["ech"] and r["ss"]["ech"] and r["cs"]["suite"] == 4866),
+        "hrr_done_sha384": count(lambda s, r, g: s["server"] == "hrr" and s["suite"] == 4866 and r["errtype"] == "none" and r["cs"]["ech"] and r["cs"]["suite"] == 4866),
         "second_inner_seen": count(lambda s, r, g: sum(1 for e in g if e["ev"] == "H9" and e["what"] == "ech_inner") == 2),
         "rejected_with_retry": count(lambda s, r, g: s["server"] in ("reject", "reject_hrr") and r["errtype"] == "ECHRejectionError" and len(r["retry"]) > 0),
         "rejected_without_retry": count(lambda s, r, g: r["errtype"] == "ECHRejectionError" and len(r["retry"]) == 0),
@@ -275,7 +295,7 @@ def run(ctx):
     by = lambda k: {v: sum(1 for s in scns if s[k] == v) for v in sorted({s[k] for s in scns})}
     cov = {"evaluations": len(scns), "distinct_nontrivial": len({json.dumps({k: v for k, v in s.items() if k != "sc"}, sort_keys=True) for s in scns}),
            "rule": "terminal states of ECH_MC = ECH-capable IDs (from the dumped extension lists) x {config_id 0/7/255} x {AEAD 1/2/3} x {maximum_name_length 0/32/255} "
-                   "x {2 name pairs} x ECHConfigList shape {single, [usable, second usable], [usable, unknown version, unsupported KEM], [unknown version, unsupported KEM, usable]} x server {accept, accept after HRR for each classical group without share, reject with 0/1/2 retry configs, reject after HRR, no ECH}, every HelloRetryRequest without / with a cookie of 1, 32, 255 bytes "
+                   "x {2 name pairs} x ECHConfigList shape {single, [usable, second usable], [usable, unknown version, unsupported KEM], [unknown version, unsupported KEM, usable]} x server {accept, accept after HRR for each classical group without share, reject with 0/1/2 retry configs, reject after HRR, no ECH}, every HelloRetryRequest without / with a cookie of 1, 32, 255 bytes, the server selecting TLS 1.3 suite 0x1301 / 0x1302 / 0x1303 (hook ForceSuite13; tied to the Latin variant in both tiers: every suite with every ID, server behaviour, certificate) "
                    "x certificate {ServerName, public name, both, neither}; %s; every scenario replayed once, rejected ones twice; distinct = distinct scenarios"
                    % ("quick: config x AEAD x max-length reduced to a Latin square chosen by VERIF_SEED (a ninth of their product), name pair, list shape and caller usage "
                       "{Handshake only, BuildHandshakeState once/twice before, build+SetClientRandom, build+SetSNI(same name)} tied to it (each shape and each usage with every ID, server behaviour and certificate)"
@@ -283,7 +303,7 @@ def run(ctx):
                       "thorough: config x AEAD x max-length reduced to a Latin square chosen by VERIF_SEED (a third: every pair of values occurs), name pair tied to it, "
                       "full product with list shape x caller usage x ID x server behaviour x certificate (HelloRetryRequests without cookie); each cookie length with every "
                       "ID x HRR group x usage x certificate x Latin variant, the list shape tied to the variant"),
-           "capable_ids": capable, "by_server": by("server"), "by_list_shape": by("shape"), "by_usage": by("usage"), "by_cert": by("cert"), "events": len(events), "observed": obs,
+           "capable_ids": capable, "by_server": by("server"), "by_list_shape": by("shape"), "by_usage": by("usage"), "by_suite": by("suite"), "by_cert": by("cert"), "events": len(events), "observed": obs,
            "model_mutants_rejected": sorted(MUTANTS), "binding_canaries": [c[0] for c in canaries],
            "rejected_scenarios": len(bad), "samples": [brief(scns[0]), brief(scns[len(scns) // 2]), brief(scns[-1])], "exhaustive": not ctx.quick}
     return "model_checking", cov, [
